@@ -97,7 +97,7 @@ func report(prop string, cfg *PropConfig, w *World, results []*FnResult, missing
 			knownHit[k] = append(knownHit[k], o.Name)
 			continue
 		}
-		isSweep := o.Kind != "post" && o.Kind != "inv.init" && o.Kind != "inv.preserved" && o.Kind != "dec" && o.Kind != "lemma" && o.Kind != "frame" && o.Kind != "pre-of" && o.Kind != "reach" && o.Kind != "ground" && o.Kind != "assert"
+		isSweep := o.Kind != "post" && o.Kind != "inv.init" && o.Kind != "inv.preserved" && o.Kind != "dec" && o.Kind != "lemma" && o.Kind != "frame" && o.Kind != "pre-of" && o.Kind != "reach" && o.Kind != "ground" && o.Kind != "assert" && o.Kind != "closure"
 		sweepFn := strings.HasPrefix(o.Fn, "sweep:")
 		inBase := baseline[o.Name]
 		switch {
